@@ -339,11 +339,14 @@ def main():
     if "shutdown" in fns:
         fact("shutdown_runs_in_loop", lambda: has_call(fns["shutdown"], "runInLoop") and has_call(fns["shutdown"], "setState"), "shutdown(): setState + runInLoop(shutdownInLoop)")
     if "forceClose" in fns:
+        # strong = the queued functor owns a shared_ptr: bind(..., shared_from_this()) and NOT a weak callback
+        # (makeWeakCallback(shared_from_this(), ...) also mentions shared_from_this but holds only a weak_ptr)
         fact("forceClose_queues_strong_ref", lambda: has_call(fns["forceClose"], "queueInLoop") and has_call(fns["forceClose"], "shared_from_this")
-             and has_call(fns["forceClose"], "setState"), "forceClose(): setState + queueInLoop(bind(forceCloseInLoop, shared_from_this()))")
+             and has_call(fns["forceClose"], "bind") and not has_call(fns["forceClose"], "makeWeakCallback")
+             and has_call(fns["forceClose"], "setState"), "forceClose(): setState + queueInLoop(bind(forceCloseInLoop, shared_from_this())), no weak callback")
     if "forceCloseWithDelay" in fns:
         fact("forceCloseWithDelay_holds_weak_ref", lambda: has_call(fns["forceCloseWithDelay"], "makeWeakCallback") and has_call(fns["forceCloseWithDelay"], "runAfter")
-             and has_call(fns["forceCloseWithDelay"], "setState"), "forceCloseWithDelay(): setState + runAfter(makeWeakCallback(shared_from_this(), forceClose))")
+             and not has_call(fns["forceCloseWithDelay"], "bind") and has_call(fns["forceCloseWithDelay"], "setState"), "forceCloseWithDelay(): setState + runAfter(makeWeakCallback(shared_from_this(), forceClose))")
     if "handleRead" in fns:
         i0, i1 = sel_ifs["handleRead"]["data_test"], sel_ifs["handleRead"]["eof_test"]
         fact("handleRead_dispatch", lambda: has_call(kids(i0)[1], "operator()") and has_call(kids(i1)[1], "handleClose") and not has_call(kids(i1)[1], "handleError")
